@@ -115,6 +115,9 @@ type run struct {
 	hb     time.Duration
 	log    []interface{}
 	stop   bool
+	// share (percent) of the runs that go on into the pipeline, and a forced way of ending it (debugging)
+	pipeShare int
+	pipeEnd   string
 }
 
 func (r *run) fail(kind, note string, prop interface{}, extra map[string]interface{}) {
@@ -564,16 +567,18 @@ func (r *run) leaderTerm(ld *raft.VNode, i uint64) (uint64, bool) {
 }
 
 // monitors evaluates C17 / C04 / C06 / C09 on the REAL trace only (no model involved).
-func (r *run) monitors(st0 raft.VReplState, ld raft.VNode, rep raft.VProbeReport, ticks []tick, fd raft.VNode, modelSpin bool) (string, string) {
+// p0 >= 0: the run went on into the pipeline at exchange p0 (from there on pipeMonitors judges matchIndex by the notes).
+func (r *run) monitors(st0 raft.VReplState, ld raft.VNode, rep raft.VProbeReport, ticks []tick, fd raft.VNode, modelSpin bool, p0 int) (string, string) {
 	ex := rep.Exchanges
-	stAfter := func(k int) (raft.VReplState, bool) { // replication state observed after exchange k was handled
+	stFinal := rep.Pipeline == nil || rep.Pipeline.StValid // the final state was read
+	stAfter := func(k int) (raft.VReplState, bool) {       // replication state observed after exchange k was handled
 		if k+1 < len(ex) {
 			return ex[k+1].Req.St, true
 		}
 		if rep.Unanswered != nil {
 			return rep.Unanswered.St, true
 		}
-		if !strings.Contains(rep.End, "stuck") && rep.End != "watchdog" {
+		if !strings.Contains(rep.End, "stuck") && rep.End != "watchdog" && stFinal {
 			return rep.St, true
 		}
 		return raft.VReplState{}, false
@@ -624,7 +629,7 @@ func (r *run) monitors(st0 raft.VReplState, ld raft.VNode, rep raft.VProbeReport
 	}
 	// ---- C06: matchIndex rises only on success, to the acknowledged index
 	prevMatch := st0.MatchIndex
-	for k := -1; k < len(ex); k++ {
+	for k := -1; k < len(ex) && (p0 < 0 || k < p0); k++ {
 		var cur raft.VReplState
 		var ok bool
 		if k == -1 {
@@ -658,7 +663,7 @@ func (r *run) monitors(st0 raft.VReplState, ld raft.VNode, rep raft.VProbeReport
 		prevMatch = cur.MatchIndex
 	}
 	for _, n := range rep.Notes {
-		if n.Kind == "matchIndex" && n.Val > rep.St.MatchIndex && !strings.Contains(rep.End, "stuck") && rep.End != "watchdog" {
+		if n.Kind == "matchIndex" && n.Val > rep.St.MatchIndex && !strings.Contains(rep.End, "stuck") && rep.End != "watchdog" && stFinal {
 			return "C06", fmt.Sprintf("the leader was told matchIndex %d, the replication holds %d", n.Val, rep.St.MatchIndex)
 		}
 	}
@@ -697,7 +702,7 @@ func (r *run) monitors(st0 raft.VReplState, ld raft.VNode, rep raft.VProbeReport
 		return "C17", fmt.Sprintf("replicate() did not reach its pipeline: stopped by the harness (%s) after %d exchanges, nextIndex started at %d", rep.End, len(ex), st0.NextIndex)
 	}
 	// ---- C04: at the end of a successful probe the follower's log agrees with the leader's up to matchIndex
-	if rep.End == "pipelined" && !faulty {
+	if rep.End == "pipelined" && !faulty && stFinal {
 		m := rep.St.MatchIndex
 		if fd.LastLogIndex < m {
 			return "C04", fmt.Sprintf("matchIndex %d but the follower's last index is %d", m, fd.LastLogIndex)
@@ -735,9 +740,28 @@ func (r *run) oneRun(vr *raft.VerifRepl, f *follower, runNo int) bool {
 	installs, mism := 0, 0
 	maxEx := int(st0.NextIndex) + 8
 	cfg := raft.VProbeCfg{HbTimeout: r.hb, MaxExchanges: maxEx, Watchdog: 2 * time.Second}
+	var px *pipePlan
+	if r.pipeShare > 0 && r.rng.Intn(100) < r.pipeShare {
+		px = r.planPipeline(r.pipeEnd)
+		cfg.PipelineEnd, cfg.PipelineExtra = px.cfgEnd(), px.Extra
+		// the pipelined requests, the probe after a mismatch (the leader grows meanwhile), the next pipeline
+		cfg.MaxExchanges = 2*maxEx + px.Extra + 24
+	}
 	setupBroken := false
 	rep := vr.RunProbe(cfg, func(k int, q raft.VProbeReq) raft.VProbeResp {
 		t := tick{}
+		if q.Pipelined && px != nil {
+			if q.PipeSeq == 1 {
+				ldp := r.sync()
+				px.ldPipe, px.nticks = &ldp, len(ticks)+1
+			}
+			if !setupBroken && !r.stimulate(px, vr, q, &t) {
+				setupBroken = true
+			}
+			if px.Slow == q.PipeSeq && q.St.Voter {
+				time.Sleep(r.hb + r.hb/4) // the idle timer fires twice meanwhile
+			}
+		}
 		// the leader moves on while the loop waits (entries, commits) and notifies as notifyFlr does
 		if !q.Pipelined && r.rng.Intn(6) == 0 && r.isLeader() && !setupBroken {
 			switch r.rng.Intn(3) {
@@ -765,28 +789,70 @@ func (r *run) oneRun(vr *raft.VerifRepl, f *follower, runNo int) bool {
 		}
 		// (never together with a leader update: an update that a failed exchange leaves in the channel would be
 		// taken by the pipeline writer while the harness ends the run)
-		if !q.Pipelined && faults == 0 && t.Upd == nil && r.rng.Intn(40) == 0 {
+		if !q.Pipelined && faults == 0 && t.Upd == nil && (px == nil || px.ldPipe == nil) && r.rng.Intn(40) == 0 {
 			t.Fault = 1 + r.rng.Intn(3)
 			faults++
+		}
+		if px != nil && px.ending != nil && px.End == "stale" && q.Append != nil {
+			// a follower that has moved on to a higher term rejects everything this leader sends from then on
+			t.Fault = faultStale
+		}
+		if q.Ending && px != nil && q.Append != nil && px.End != "stopHeld" {
+			qq := q
+			px.ending, px.lied = &qq, true
+			switch px.End {
+			case "readErr", "readErrPaused":
+				t.Fault = faultReadErr
+				if px.Feed {
+					f.n.Append(*q.Append) // the request arrived, its answer did not
+				}
+			case "stale":
+				t.Fault = faultStale
+			case "mismatch":
+				t.Fault = faultMismatch
+				px.endingLast = f.n.Digest().LastLogIndex
+			case "faulty":
+				t.Fault = faultWipe
+			case "stopDrain":
+				if px.Feed {
+					px.lied = false // answered as usual, after stopCh was closed
+				} else {
+					t.Fault = faultNone
+				}
+			}
 		}
 		ticks = append(ticks, t)
 		kind := q.Kind
 		switch t.Fault {
-		case 1:
+		case 1, faultWipe:
 			if err := f.wipe(); err != nil {
 				setupBroken = true
 			}
 		case 2:
 			return raft.VProbeResp{Kind: kind, Term: 0, Result: 11}
-		case 3:
+		case 3, faultReadErr:
 			return raft.VProbeResp{Kind: "eof"}
+		case faultStale:
+			return raft.VProbeResp{Kind: "append", Term: q.Append.Term + 1, Result: 3}
+		case faultMismatch:
+			res := uint64(7)
+			if px.Sev {
+				res = 8
+			}
+			return raft.VProbeResp{Kind: "append", Term: q.Append.Term, Result: res, LastLogIndex: px.endingLast}
+		case faultNone:
+			return raft.VProbeResp{Kind: "none"}
 		}
 		switch kind {
 		case "append":
 			f.n.Append(*q.Append)
 			if rp := f.n.Digest().RpcReply; rp != nil && f.n.Panic == "" {
-				if rp.Result == 7 || rp.Result == 8 {
+				if (rp.Result == 7 || rp.Result == 8) && (px == nil || px.ldPipe == nil) {
 					mism++
+				}
+				if px != nil && q.PipeSeq == 1 {
+					m1, d1, _ := f.model()
+					px.f1, px.fd1 = &m1, &d1
 				}
 				return raft.VProbeResp{Kind: "append", Term: rp.Term, Result: rp.Result, LastLogIndex: rp.LastLogIndex}
 			}
@@ -810,6 +876,24 @@ func (r *run) oneRun(vr *raft.VerifRepl, f *follower, runNo int) bool {
 	}
 	ld := r.sync()
 	f1, fd, _ := f.model()
+	// a run that went on into the pipeline: the model describes it up to its first pipelined request
+	full, fullLd, fullFd, fullTicks := rep, ld, fd, ticks
+	p0 := -1
+	if px != nil {
+		for k, x := range rep.Exchanges {
+			if x.Req.Pipelined {
+				p0 = k
+				break
+			}
+		}
+		if p0 < 0 || px.ldPipe == nil || px.f1 == nil {
+			r.st.Hist["pipeline:not-reached"]++
+			p0 = -1
+		} else {
+			rep = truncated(full, p0)
+			ld, f1, fd, ticks = *px.ldPipe, *px.f1, *px.fd1, ticks[:px.nticks]
+		}
+	}
 
 	// ---- the model's run
 	ans, err := r.d.Ask(map[string]interface{}{"engine": "repl", "what": "probe", "id": r.st.Steps, "st": st0, "leader": ld,
@@ -841,7 +925,7 @@ func (r *run) oneRun(vr *raft.VerifRepl, f *follower, runNo int) bool {
 	real := map[string]interface{}{"trace": trace, "st": realSt, "flr": f1, "err": rerr, "panic": rpanic, "notes": rep.Notes, "ending": ending}
 	rc := harness.ToCanon(real).(map[string]interface{})
 	mc := harness.Canon(ans).(map[string]interface{})
-	if ending == "pipelined" && mending == "pipelined" {
+	if ending == "pipelined" && mending == "pipelined" && p0 < 0 {
 		// the pipeline writer keeps writing while the harness stops the run: nextIndex may be ahead of the
 		// first pipelined request, never behind it
 		ms, _ := mc["st"].(map[string]interface{})
@@ -941,11 +1025,16 @@ func (r *run) oneRun(vr *raft.VerifRepl, f *follower, runNo int) bool {
 				"end": ending, "st": rep.St, "leader_log": fmt.Sprintf("(%d, %d] snap %d term %d", ld.Log.Prev, ld.LastLogIndex, ld.SnapIndex, ld.Term)})
 		}
 	}
-	r.log = append(r.log, map[string]interface{}{"run": runNo, "shape": f.shape, "st0": st0, "end": rep.End, "err": rep.Err, "exchanges": len(rep.Exchanges), "st": rep.St})
+	hist := map[string]interface{}{"run": runNo, "shape": f.shape, "st0": st0, "end": rep.End, "err": rep.Err, "exchanges": len(rep.Exchanges), "st": rep.St}
+	if p0 >= 0 {
+		hist["pipeline"] = map[string]interface{}{"plan": px.End, "extra": px.Extra, "report": full.Pipeline, "end": full.End, "err": full.Err, "exchanges": len(full.Exchanges), "st": full.St}
+		r.pipeStats(px, full, p0)
+	}
+	r.log = append(r.log, hist)
 
 	// ---- monitors on the real trace
 	r.st.MonitorChecks++
-	prop, note := r.monitors(st0, ld, rep, ticks, fd, mending == "spin")
+	prop, note := r.monitors(st0, ld, rep, ticks, fd, mending == "spin", -1)
 	casefile := map[string]interface{}{"st0": st0, "follower0": f0, "follower_shape": f.shape, "ticks": ticks, "report": rep,
 		"leader": map[string]interface{}{"term": ld.Term, "log_prev": ld.Log.Prev, "last": ld.LastLogIndex, "snapIndex": ld.SnapIndex, "snapTerm": ld.SnapTerm, "commit": ld.CommitIndex, "last0": ld0.LastLogIndex},
 		"run":    runNo}
@@ -957,6 +1046,27 @@ func (r *run) oneRun(vr *raft.VerifRepl, f *follower, runNo int) bool {
 		r.fail("correspondence", "the real replicate() run differs from the model's", nil,
 			map[string]interface{}{"case": casefile, "real": rc, "model": map[string]interface{}{"first": mc, "diff": harness.Diff(rc, mc)}})
 		return false
+	}
+	if p0 >= 0 {
+		// ---- the pipeline part: monitors on the real trace (the whole run once more through the request monitors)
+		r.st.MonitorChecks++
+		casefile["report"], casefile["ticks"] = full, fullTicks
+		casefile["pipeline"] = map[string]interface{}{"plan": px.End, "extra": px.Extra, "first_pipelined_exchange": p0, "stimuli": px.stims}
+		prop, note := r.pipeMonitors(px, full, p0, fullLd)
+		if prop == "" && full.Pipeline.Returned && len(full.Pipeline.Left) == 0 {
+			prop, note = r.monitors(st0, fullLd, full, fullTicks, fullFd, false, p0)
+		}
+		if prop != "" {
+			r.fail("monitor", note, prop, map[string]interface{}{"case": casefile})
+			return false
+		}
+		if !full.Pipeline.StValid {
+			// replicate returned without waiting for its writer goroutine (drainRespsTimeout closed the connection): the
+			// harness has no ordered way to read the replication any more - the sequence ends here
+			r.st.Hist["pipeline:state-not-read:return-not-ordered-after-writer"]++
+			return false
+		}
+		return full.End == "pipelined" || full.Err == "error"
 	}
 	return rep.End == "pipelined" || rep.Err == "error" || rep.Err == "remote"
 }
@@ -1047,11 +1157,19 @@ func main() {
 	tier := flag.String("tier", "quick", "quick|thorough")
 	report := flag.String("report", "", "report file")
 	replay := flag.String("replay", "", "replay file")
-	workers := flag.Int("workers", 8, "parallel workers")
+	workers := flag.Int("workers", 8, "parallel workers (child processes)")
 	seqs := flag.Int("seqs", 0, "sequences")
 	replayDir := flag.String("replaydir", "/verif/replays", "where failing cases are written")
 	hbms := flag.Int("hb", 50, "heartbeat timeout of the replication under test, milliseconds")
 	props := flag.String("props", "", "ignored (all monitors always run)")
+	pipe := flag.Int("pipe", 60, "share (percent) of the runs that go on into the pipelining phase of replicate()")
+	pipeEnd := flag.String("pipeend", "", "force the way the pipeline is ended (stop|stopDrain|stopHeld|readErr|readErrPaused|stale|mismatch|faulty|leaderUpdate|heartbeat)")
+	isolate := flag.Bool("isolate", false, "one child process per sequence (slow; a dying sequence is found by re-running its batch anyway)")
+	batch := flag.Int("batch", 0, "sequences per child process (0: nseq/(4*workers))")
+	child := flag.Bool("child", false, "internal: run sequences -from..-to in this process and write the statistics to -out")
+	from := flag.Int("from", 0, "internal")
+	to := flag.Int("to", 0, "internal")
+	out := flag.String("out", "", "internal")
 	flag.Parse()
 	_ = props
 	nseq := 250
@@ -1075,9 +1193,11 @@ func main() {
 		}
 		defer w.Destroy()
 		w.Seed = sseed
-		r := &run{rng: rng, d: d, st: st, seed: sseed, w: w, ledger: map[uint64]raft.VEntry{}, hb: time.Duration(*hbms) * time.Millisecond}
+		r := &run{rng: rng, d: d, st: st, seed: sseed, w: w, ledger: map[uint64]raft.VEntry{}, hb: time.Duration(*hbms) * time.Millisecond,
+			pipeShare: *pipe, pipeEnd: *pipeEnd}
 		r.sequence()
 	}
+	seqSeed := func(i int) int64 { return *seed*7000003 + int64(i) }
 	if *replay != "" {
 		b, err := ioutil.ReadFile(*replay)
 		if err != nil {
@@ -1095,6 +1215,8 @@ func main() {
 		}
 		defer d.Close()
 		st := nodesim.NewStats()
+		// (a sequence that kills the process does so here too: the panic's stack is the evidence)
+		fmt.Fprintf(os.Stderr, "EPISODE -1 %d\n", rec.Seed)
 		one(d, st, rec.Seed)
 		if len(st.Disagreements) > 0 {
 			dg := st.Disagreements[0]
@@ -1104,13 +1226,16 @@ func main() {
 					for k, x := range rep.Exchanges {
 						switch {
 						case x.Req.Append != nil:
-							fmt.Printf("  %2d append prev=%d/%d entries=%d pipelined=%v next=%d match=%d -> result=%d last=%d\n", k, x.Req.Append.PrevLogIndex, x.Req.Append.PrevLogTerm,
-								len(x.Req.Append.Entries), x.Req.Pipelined, x.Req.St.NextIndex, x.Req.St.MatchIndex, x.Resp.Result, x.Resp.LastLogIndex)
+							fmt.Printf("  %2d append prev=%d/%d entries=%d pipelined=%v next=%d match=%d -> %s result=%d last=%d\n", k, x.Req.Append.PrevLogIndex, x.Req.Append.PrevLogTerm,
+								len(x.Req.Append.Entries), x.Req.Pipelined, x.Req.St.NextIndex, x.Req.St.MatchIndex, x.Resp.Kind, x.Resp.Result, x.Resp.LastLogIndex)
 						case x.Req.Install != nil:
 							fmt.Printf("  %2d install %d/%d -> result=%d\n", k, x.Req.Install.LastIndex, x.Req.Install.LastTerm, x.Resp.Result)
 						}
 					}
 					fmt.Printf("  end=%s err=%q panic=%q final next=%d match=%d\n", rep.End, rep.Err, rep.Panic, rep.St.NextIndex, rep.St.MatchIndex)
+					if rep.Pipeline != nil {
+						fmt.Printf("  pipeline: %+v\n", *rep.Pipeline)
+					}
 				}
 			}
 			os.Exit(1)
@@ -1118,39 +1243,28 @@ func main() {
 		fmt.Println("replay: no disagreement")
 		return
 	}
-	var wg sync.WaitGroup
-	results := make([]*nodesim.Stats, *workers)
-	for w := 0; w < *workers; w++ {
-		wg.Add(1)
-		go func(w int) {
-			defer wg.Done()
-			d, err := harness.StartDriver(*driver)
-			if err != nil {
-				fmt.Fprintln(os.Stderr, "driver:", err)
-				os.Exit(2)
-			}
-			defer d.Close()
-			st := nodesim.NewStats()
-			results[w] = st
-			for i := w; i < nseq; i += *workers {
-				one(d, st, *seed*7000003+int64(i))
-				if len(st.Disagreements) >= 2 {
-					break
-				}
-			}
-		}(w)
+	if *child {
+		os.Exit(runChild(*driver, *from, *to, *out, seqSeed, one))
 	}
-	wg.Wait()
-	total := nodesim.NewStats()
-	for _, st := range results {
-		total.Merge(st)
+	// the sequences run in child processes: a panic of the pipeline writer goroutine that escapes (its deferred function
+	// re-panics runtime errors) kills the process - the child's, and the parent finds the sequence that does it
+	par := &parent{driver: *driver, seed: *seed, tier: *tier, hb: *hbms, pipe: *pipe, pipeEnd: *pipeEnd, seqs: nseq, seqSeed: seqSeed,
+		total: nodesim.NewStats()}
+	bs := *batch
+	if bs <= 0 {
+		bs = (nseq + 4**workers - 1) / (4 * *workers)
 	}
+	if *isolate {
+		bs = 1
+	}
+	par.runAll(nseq, bs, *workers)
+	total := par.total
 	// only this engine's own evaluations count: runs of the real replicate()
 	runs := 0
 	hist := map[string]int{}
 	for k, v := range total.Hist {
 		if strings.HasPrefix(k, "run:") || strings.HasPrefix(k, "exch:") || strings.HasPrefix(k, "probe:") || strings.HasPrefix(k, "pipeline:") ||
-			strings.HasPrefix(k, "fault:") || strings.HasPrefix(k, "install:") || strings.HasPrefix(k, "skip:") {
+			strings.HasPrefix(k, "fault:") || strings.HasPrefix(k, "install:") || strings.HasPrefix(k, "skip:") || k == "pipeline-exchanges" {
 			hist[k] = v
 		}
 		if strings.HasPrefix(k, "run:end:") {
@@ -1174,11 +1288,19 @@ func main() {
 		}
 	}
 	sort.Strings(keys)
+	pipeRuns := 0
+	for k, v := range hist {
+		if strings.HasPrefix(k, "pipeline:applied:") {
+			pipeRuns += v
+		}
+	}
 	rep := &harness.Report{Engine: "probelive", Seed: *seed, Tier: *tier, Evaluations: runs, DistinctNontrivial: len(keys),
-		Rule:      "one evaluation = one complete run of the real replication.replicate() in a goroutine over a scripted connection (real leader node, real follower node fed the decoded requests) until its first pipelined request is answered or it returns, compared exchange by exchange (request, replication state at the request, response; final state, follower, notes, error class) with Raft.Repl.replicate; non-trivial = the run had a mismatch answer, an install-snapshot exchange, an injected fault or did not end in the pipeline; distinct by (follower shape, ending, error, #mismatches bucket, #installs, leader update seen, entries of the first pipelined request bucket, fault, re-entry, matchIndex>0 at start)",
+		Rule:      "one evaluation = one complete run of the real replication.replicate() in a goroutine over a scripted connection (real leader node, real follower node fed the decoded requests) until its first pipelined request is answered or it returns, compared exchange by exchange (request, replication state at the request, response; final state, follower, notes, error class) with Raft.Repl.replicate; a share of the runs goes on INTO the pipeline (writer goroutine + reader loop of the real code; further requests answered by the real follower while the real leader grows / commits / stays idle) and ends it by stop, stop with a response outstanding, a failing Read (also with the writer goroutine held between header and entries), a staleTerm answer, a mismatch answer (back to probing), a follower that lost its storage - judged by monitors on the real execution (C15: returns, goroutines gone, no panic, process alive; C15/C09: conn.rwc==nil iff replicate closed the connection; C06/C17: notes vs acknowledgements, contiguous requests, re-probe after mismatch; C04 on every request); non-trivial = the run had a mismatch answer, an install-snapshot exchange, an injected fault, did not end in the pipeline, or went on into the pipeline; distinct by (follower shape, ending, error, #mismatches bucket, #installs, leader update seen, entries of the first pipelined request bucket, fault, re-entry, matchIndex>0 at start) resp. for the pipeline part by (way of ending, what was applied, end, error, closed, #pipelines, writer held, #requests bucket, #requests with entries bucket)",
 		Histogram: hist, Samples: samples, WallS: time.Since(start).Seconds(),
 		Extra: map[string]interface{}{"monitor_checks": total.MonitorChecks, "distinct_keys": keys,
-			"timing_dependent_runs_with_requests_written_after_the_end": total.Hist["timing:requests-written-after-the-run-ended"]}}
+			"timing_dependent_runs_with_requests_written_after_the_end": total.Hist["timing:requests-written-after-the-run-ended"],
+			"pipeline_episodes": pipeRuns,
+			"child_processes":   par.children, "child_processes_died": par.died, "race_reports": par.races, "race_reports_harness_only": par.harnessRaces}}
 	for _, dg := range total.Disagreements {
 		path := filepath.Join(*replayDir, fmt.Sprintf("probelive-%d-%d.json", *seed, len(rep.Disagreements)))
 		_ = os.MkdirAll(*replayDir, 0755)
@@ -1193,7 +1315,7 @@ func main() {
 	if *report != "" {
 		_ = rep.Write(*report)
 	}
-	fmt.Printf("probelive: %d runs of replicate(), %d distinct non-trivial, %d disagreements, %.1fs\n", runs, len(keys), len(rep.Disagreements), rep.WallS)
+	fmt.Printf("probelive: %d runs of replicate() (%d went on into the pipeline, %d pipelined exchanges), %d distinct non-trivial, %d disagreements, %.1fs\n", runs, pipeRuns, hist["pipeline-exchanges"], len(keys), len(rep.Disagreements), rep.WallS)
 	for _, dg := range rep.Disagreements {
 		fmt.Printf("DISAGREEMENT property_failed=%v kind=%v note=%v replay=%v\n", dg["property_failed"], dg["kind"], dg["note"], dg["replay"])
 	}
